@@ -79,11 +79,21 @@ async fn run(name: &str) -> Result<(), String> {
             w("src/.hgignore", "*.orig\n");
             w("src/empty/.gitignore", "");           // empty: does not count
             w("src/nested/dir/.gitignore", "q\n");
+            // eight pairs of siblings pN (ignored by the origin's .gitignore) / pNx (not ignored, name = pN + one character), created in alternating
+            // order so that whatever order the file system lists them in, some pruned pN is met while its longer-named sibling is still pending
+            let mut origin_gitignore = String::from("/tests/\n");
+            for n in 0..8 {
+                origin_gitignore.push_str(&format!("/p{n}/\n"));
+                let (a, b) = (format!("p{n}/.gitignore"), format!("p{n}x/.gitignore"));
+                if n % 2 == 0 { w(&a, "k\n"); w(&b, "k\n"); } else { w(&b, "k\n"); w(&a, "k\n"); }
+            }
+            w(".gitignore", &origin_gitignore);
             let (files, errors) = ignore_files::from_origin(root.as_path()).await;
             if !errors.is_empty() { return Err(format!("discovery reported errors: {errors:?}")); }
             let got: BTreeSet<(PathBuf, Option<PathBuf>)> = files.iter().map(|f| (f.path.strip_prefix(&root).unwrap_or(&f.path).to_owned(), f.applies_in.as_ref().map(|a| a.strip_prefix(&root).unwrap_or(a).to_owned()))).collect();
             let e = |p: &str, d: &str| (PathBuf::from(p), Some(PathBuf::from(d)));
-            let want: BTreeSet<(PathBuf, Option<PathBuf>)> = [e(".gitignore", ""), e(".ignore", ""), e(".git/info/exclude", ""), e("test/.gitignore", "test"), e("src/.ignore", "src"), e("src/.hgignore", "src"), e("src/nested/dir/.gitignore", "src/nested/dir")].into_iter().collect();
+            let want: BTreeSet<(PathBuf, Option<PathBuf>)> = [e(".gitignore", ""), e(".ignore", ""), e(".git/info/exclude", ""), e("test/.gitignore", "test"), e("src/.ignore", "src"), e("src/.hgignore", "src"), e("src/nested/dir/.gitignore", "src/nested/dir")].into_iter()
+                .chain((0..8).map(|n| (PathBuf::from(format!("p{n}x/.gitignore")), Some(PathBuf::from(format!("p{n}x")))))).collect();
             if files.len() != got.len() { return Err(format!("a file was returned more than once: {:?}", files.iter().map(|f| &f.path).collect::<Vec<_>>())); }
             if got == want { Ok(()) } else {
                 Err(format!("discovery from the origin returned (path, applies in) = {:?}; unexpected {:?}; missing {:?}", got, got.difference(&want).collect::<Vec<_>>(), want.difference(&got).collect::<Vec<_>>()))
@@ -237,6 +247,21 @@ async fn run(name: &str) -> Result<(), String> {
                 let gt = types(&chain[1]).await; let wt = types_of(&[a, b]);
                 if gt != wt { return Err(format!("{a:?} and {b:?} in one directory: types() = {gt:?}, expected {wt:?}")); }
             }}
+            // a third wrong node type: a symbolic link named like a marker (to a file or to a directory) is itself neither a file nor a directory, so it
+            // marks nothing -- the listing records each entry's own type, it does not follow links
+            #[cfg(unix)]
+            {
+                let store = root.join("store"); std::fs::create_dir_all(store.join("adir")).unwrap(); std::fs::write(store.join("afile"), "x").unwrap();
+                for (name, _) in some { for to_dir in [false, true] { for level in 0..4 {
+                    reset(&chain);
+                    std::os::unix::fs::symlink(if to_dir { store.join("adir") } else { store.join("afile") }, chain[level].join(name)).unwrap();
+                    let got = origins(&leaf).await;
+                    cases += 1;
+                    if got != baseline { return Err(format!("a symbolic link named {name} (to a {}) in {}: origins = {got:?}, expected none in the chain", if to_dir { "directory" } else { "file" }, chain[level].display())); }
+                    let gt = types(&chain[level]).await;
+                    if !gt.is_empty() { return Err(format!("a symbolic link named {name} (to a {}): types() = {gt:?}, expected none", if to_dir { "directory" } else { "file" })); }
+                }}}
+            }
             for t in [T::Bazaar, T::Darcs, T::Fossil, T::Git, T::Mercurial, T::Pijul, T::Subversion, T::Bundler, T::C, T::Cargo, T::Docker, T::Elixir, T::Gradle, T::JavaScript, T::Leiningen, T::Maven, T::Perl, T::PHP, T::Pip, T::V, T::Zig, T::Go] {
                 if t.is_vcs() == t.is_soft() { return Err(format!("{t:?}: is_vcs = {}, is_soft = {}", t.is_vcs(), t.is_soft())); }
             }
